@@ -11,7 +11,10 @@ from ..domain import RAW, RAW_NONSTR, UNKNOWN, is_esc
 
 LEVEL = ("path rules over the 14 builders and their convert_value implementations (every path of the function is walked with the "
          "decisions taken on it, calls to the private helpers of its region are walked in place): the default flows into convert_value, on every path a PropertyError result is returned and the "
-         "class is registered / the property returned only after the result was tested, the property stores the converted Value; "
+         "class is registered / the property returned only after the result was tested (no path returns a property past the conversion "
+         "unless it returns what another builder built or no default is declared on it), the property stores the converted Value; "
+         "wherever property_from_data or a builder hands the property on to a builder, the declared default goes with it (the default "
+         "argument is the declared default, the schema argument the schema or a copy that keeps its default; three frozen exceptions); "
          "convert_value rejects by default (every path without a positive type / membership / equality decision about the value "
          "ends in an error, every accepting return lies only on paths with such a decision, bool excluded wherever int is "
          "accepted); python_code is built not pasted (label analysis); the $ref route and the allOf merge route re-convert with "
@@ -25,19 +28,28 @@ NO_DEFAULT = {"ListProperty", "ModelProperty", "FileProperty"}  # kinds without 
 _BUILTIN_EXT = {"str": {"str"}, "float": {"float"}, "int": {"int", "bool"}, "bool": {"bool"}, "bytes": {"bytes"}, "list": {"list"},
                 "dict": {"dict"}, "tuple": {"tuple"}, "set": {"set"}}
 _NONNULL_CALLS = {"str", "repr", "format", "join", "float", "int", "bool"}
-ACCEPTING = {"built", "conv", "valid", "other", "nonnull", "param"}
+ACCEPTING = {"built", "conv", "valid", "other", "nonnull", "param", "deleg", "schema"}
+_BUILDER_ENTRIES = {"build", "property_from_data"}   # what hands a schema / a default on to (another) builder
+_COPIES = {"model_copy", "copy", "deepcopy", "evolve", "replace"}   # X.model_copy(...), evolve(X, ...), copy(X): X again, with overrides
+_PREDICATES = {"isinstance", "issubclass", "callable", "hasattr", "all", "any", "bool"}   # builtins whose result is a truth value
 
 
 # ---- path walker -------------------------------------------------------------------------------------------------------------
 # Every path of one (small) function is walked over its statement structure.  A state carries, for the path walked so far,
 #   kind   what each local / parameter holds:  none | error | conv (result of a *.convert_value call, untested) | valid (such a
 #          result after `isinstance(x, <Error>)` was answered no) | built (Value(...)) | nonnull | passed (already a Value) |
-#          param (untouched parameter) | other;  conv / valid / error remember the call they come from
+#          param (untouched parameter) | other;  conv / valid / error remember the call they come from;
+#          deleg (what another builder returned: X.build(...) / property_from_data(...), remembers the call; the first element of its
+#          unpacked pair is still that) | schema (the schema that carries the declared default, or a copy of it that keeps the default)
 #   facts  the truth value of every decision taken (atoms in positive form: `a is not b` is `a is b` answered no, so inverted tests,
 #          swapped branches, early return vs nested if all yield the same facts); dropped when a name they mention is re-bound
 #   hist   the same decisions, kept for good (what has been established about the value on this path)
 #   ev     the positive decisions about the source value (type / membership / equality answered yes, or a delegate conversion
 #          answered "not an error")
+#   cond   the decision a local stands for: after `ok = <test>` (a comparison, a builtin predicate, not / and / or of them, True /
+#          False; `ok` may also be a parameter of a helper walked in place that receives such an argument) a later `if ok` IS `if <test>`,
+#          so a decision that was given a name, folded into one condition or computed ahead of its use yields the same facts as the
+#          test written in the `if`; forgotten as soon as a name the test mentions is re-bound
 # Infeasible combinations are pruned (None is no error; two disjoint builtin types; bool without int).  Loops run to a fixpoint
 # over the finite state set, any statement of a try body may jump to its handlers.
 # A call to a private helper of the function's region (astutil.region: same module, `_name`, called by plain name / self. / cls. /
@@ -47,7 +59,7 @@ ACCEPTING = {"built", "conv", "valid", "other", "nonnull", "param"}
 # statements whether a piece of the function was extracted into a helper or not.
 
 class PState:
-    __slots__ = ("kind", "taint", "facts", "tfacts", "hist", "ev", "errs", "oks", "alias", "nul")
+    __slots__ = ("kind", "taint", "facts", "tfacts", "hist", "ev", "errs", "oks", "alias", "nul", "cond")
 
     def __init__(self) -> None:
         self.kind: dict[str, tuple[str, int | None]] = {}
@@ -60,6 +72,7 @@ class PState:
         self.oks: frozenset[int] = frozenset()      # conversions found not to be an error on this path
         self.alias: frozenset[str] = frozenset()    # names that hold the subject (the value under conversion) itself
         self.nul = False                            # on this path the subject was found to be None / to be a Value already
+        self.cond: dict[str, tuple[str, ast.expr]] = {}   # local -> (text, expression) of the decision it was bound to
 
     def copy(self) -> "PState":
         s = PState()
@@ -73,11 +86,13 @@ class PState:
         s.oks = self.oks
         s.alias = self.alias
         s.nul = self.nul
+        s.cond = dict(self.cond)
         return s
 
     def key(self) -> tuple:
         return (tuple(sorted(self.kind.items(), key=lambda kv: kv[0])), self.taint, tuple(sorted(self.facts.items())), self.tfacts,
-                self.hist, self.ev, self.errs, self.oks, self.alias, self.nul)
+                self.hist, self.ev, self.errs, self.oks, self.alias, self.nul,
+                tuple(sorted((n, t) for n, (t, _) in self.cond.items())))
 
     def said(self, text: str, truth: bool) -> bool:
         return (text, truth) in self.hist
@@ -137,6 +152,16 @@ class _Rename(ast.NodeTransformer):
         return n
 
 
+class _Subst(ast.NodeTransformer):
+    """names replaced by the expressions they stand for"""
+
+    def __init__(self, m: dict[str, ast.expr]) -> None:
+        self.m = m
+
+    def visit_Name(self, n: ast.Name) -> ast.AST:
+        return self.m[n.id] if isinstance(n.ctx, ast.Load) and n.id in self.m else n
+
+
 def _helpers_of(ix: Any, f: Any, depth: int = 3) -> dict[str, Any]:
     """private helpers of f's region by name (a name that is defined twice resolves to nothing)"""
     by: dict[str, list[Any]] = {}
@@ -167,16 +192,22 @@ def _arg_map(c: ast.Call, h: Any) -> dict[str, ast.expr]:
 
 class Paths:
     def __init__(self, fn: ast.FunctionDef, tainted: set[str] = frozenset(), source: Callable[[ast.AST], bool] | None = None,
-                 source_nonnull: bool = False, subject: str | None = None, helpers: dict[str, Any] | None = None) -> None:
-        """subject  the parameter whose value is being converted (R13.2): what is decided about it under any of its names counts
-                    as decided about the value
-           helpers  the private helpers of fn's region (_helpers_of): calls to them are walked in place"""
+                 source_nonnull: bool = False, subject: str | None = None, helpers: dict[str, Any] | None = None,
+                 schema: str | None = None, callee_of: Callable[[ast.Call], Any] | None = None) -> None:
+        """subject  the parameter whose value is being converted (R13.2) / that is the declared default (R13.1): what is decided about
+                    it under any of its names counts as decided about the value; an expression `source` accepts is the subject too
+           helpers  the private helpers of fn's region (_helpers_of): calls to them are walked in place
+           schema   the parameter that is the schema carrying the declared default
+           callee_of  the builder a call X.build(...) / property_from_data(...) goes to (its parameter names tell which argument is
+                    the default / the schema)"""
         self.fn = fn
         a = fn.args
         self.params = {x.arg for x in [*a.posonlyargs, *a.args, *a.kwonlyargs]}
         self.source = source or (lambda n: False)
         self.source_nonnull = source_nonnull
         self.helpers = helpers or {}
+        self.callee_of = callee_of or (lambda c: None)
+        self.delegs: dict[int, tuple[ast.Call, set[tuple[bool, str, str]]]] = {}   # builder call -> (node, {(default handed on?, parameter, argument)})
         self.sites: dict[int, tuple[ast.Call, bool]] = {}    # conversion call -> (node, argument derived from the source?)
         self.walked: dict[int, list[ast.Call]] = {}          # conversion call -> the call as it was walked (in a helper: in the
         #                                                      caller's names where parameters were bound to plain names)
@@ -189,12 +220,15 @@ class Paths:
         self._ret: list[list[tuple[PState, ast.expr | None]]] = []   # what the helper being walked returns, per path
         self._inner: set[int] = set()             # return statements of helpers (not returns of fn)
         self._synth: set[int] = set()             # `return <what the helper returned>`: stands for a return of fn, is no source statement
+        self._resolved: dict[tuple, ast.expr] = {}   # (decision, what its names stood for) -> the decision with those names replaced
         s0 = PState()
         s0.taint = frozenset(tainted)
         for p in self.params:
             s0.kind[p] = ("param", None)
         if subject is not None:
             s0.alias = frozenset({subject})
+        if schema is not None and schema in self.params:
+            s0.kind[schema] = ("schema", None)
         outs = self._block(fn.body, [s0], None)
         for s in outs:
             self.records.append((None, s))
@@ -220,6 +254,8 @@ class Paths:
         if isinstance(e, ast.Name):
             return st.kind.get(e.id, ("other", None))
         if isinstance(e, ast.Call):
+            if f"@{id(e)}" in st.kind:     # a helper call inside a statement, walked in place: what it returned on this path
+                return st.kind[f"@{id(e)}"]
             last = call_name(e).rsplit(".", 1)[-1]
             if last in ERROR_CLASSES or last in ERROR_ONLY_HELPERS:
                 return ("error", None)
@@ -229,10 +265,55 @@ class Paths:
                 return ("built", None)
             if last in _NONNULL_CALLS:
                 return ("nonnull", None)
+            if last == "cast" and len(e.args) == 2:
+                return self.kind_of(e.args[1], st)
+            if last in _BUILDER_ENTRIES and (last != "build" or isinstance(e.func, ast.Attribute)):
+                return ("deleg", self._deleg(e, st))
+            if self._keeps_default(e, last, st):
+                return ("schema", None)
             return ("other", None)
         if self.source(e) and self.source_nonnull:
             return ("nonnull", None)
         return ("other", None)
+
+    def _keeps_default(self, c: ast.Call, last: str, st: PState) -> bool:
+        """is c the schema that carries the declared default again: a copy of it that does not override `default` with anything but the
+        declared default, or something constructed with `default=<the declared default>`"""
+        over: dict[str, ast.expr] = {kw.arg: kw.value for kw in c.keywords if kw.arg}
+        if last in _COPIES:
+            base = c.func.value if isinstance(c.func, ast.Attribute) and last in ("model_copy", "copy") and not c.args else (c.args[0] if c.args else None)
+            if base is None or self.kind_of(base, st)[0] != "schema":
+                return False
+            upd = over.pop("update", None)
+            if upd is not None:
+                if not (isinstance(upd, ast.Dict) and all(isinstance(k, ast.Constant) for k in upd.keys)):
+                    return False
+                over.update({str(k.value): v for k, v in zip(upd.keys, upd.values)})
+            return "default" not in over or self._is_decl(over["default"], st)
+        return "default" in over and self._is_decl(over["default"], st)
+
+    def _is_decl(self, e: ast.expr | None, st: PState) -> bool:
+        """is e the declared default itself"""
+        if isinstance(e, ast.IfExp):
+            return self._is_decl(e.body, st) and self._is_decl(e.orelse, st)
+        return e is not None and self._is_alias(e, st)
+
+    def _deleg(self, c: ast.Call, st: PState) -> int:
+        """a call that hands the property over to (another) builder: is the declared default handed over with it"""
+        k = self.oid(c)
+        h = self.callee_of(self.origin(c))
+        names = {x.arg for x in [*h.node.args.posonlyargs, *h.node.args.args, *h.node.args.kwonlyargs]} if h is not None else {kw.arg for kw in c.keywords}
+        amap = _arg_map(c, h) if h is not None else {kw.arg: kw.value for kw in c.keywords if kw.arg}
+        if "default" in names:
+            arg = amap.get("default")
+            verdict = (arg is not None and self._is_decl(arg, st), "default", norm(arg) if arg is not None else "<not given>")
+        elif "data" in names:
+            arg = amap.get("data")
+            verdict = (arg is not None and self.kind_of(arg, st)[0] == "schema", "data", norm(arg) if arg is not None else "<not given>")
+        else:
+            verdict = (False, "?", "<no default / data parameter>")
+        self.delegs.setdefault(k, (self.origin(c), set()))[1].add(verdict)
+        return k
 
     def _site(self, c: ast.Call, st: PState) -> int:
         k = self.oid(c)
@@ -327,15 +408,28 @@ class Paths:
         assigned = {id(v) for v in _arms(value)} if isinstance(n, (ast.Assign, ast.AnnAssign)) and value is not None else set()
         whole = value if isinstance(n, (ast.Return, ast.Expr)) and isinstance(value, ast.Call) and self._target(value) is not None \
             and depth < 4 else None
+        rest: list[ast.expr] | None = None
+        if whole is None and isinstance(n, ast.Return) and isinstance(value, ast.Tuple) and value.elts and isinstance(value.elts[0], ast.Call) \
+                and self._target(value.elts[0]) is not None and depth < 4:
+            whole, rest = value.elts[0], value.elts[1:]     # return helper(...), x: what the helper returned is the first element
         states = [s]
         for c in [c for c in calls_in(n) if c is not whole and id(c) not in assigned and self._target(c) is not None]:
-            states = _dedupe([s2 for x in states for s2, _ in self._inline(c, x)])
+            nxt: list[PState] = []
+            for x in states:
+                for s2, rv in self._inline(c, x):     # what the call evaluates to on this path is kept under the call's own name
+                    k, d, al = self.kind_of(rv, s2), self.derived(rv, s2), self._is_alias(rv, s2)
+                    s2 = s2.copy()
+                    self._bind(s2, f"@{id(c)}", k, d, al)
+                    nxt.append(s2)
+            states = _dedupe(nxt)
         if whole is None:
             return [y for x in states for y in self._leaf(n, x, loop)]
         out = []
         for x in states:
             for s2, rv in self._inline(whole, x):
                 rv = rv if rv is not None else ast.Constant(value=None)
+                if rest is not None:
+                    rv = ast.Tuple(elts=[rv, *rest], ctx=ast.Load())
                 n2: ast.stmt = ast.Return(value=rv) if isinstance(n, ast.Return) else ast.Expr(value=rv)
                 ast.copy_location(n2, n)
                 self._orig[id(n2)] = self.origin(n)
@@ -427,17 +521,61 @@ class Paths:
         """walk the helper this call goes to; (state, returned expression | None) for every path that comes back"""
         h = self._target(c)
         fn, binds = self._expand(c, h)
-        s = s.copy()
-        vals = [(nm, (self.kind_of(arg, s), self.derived(arg, s), self._is_alias(arg, s)) if arg is not None else (("other", None), False, False))
-                for nm, arg in binds]
-        for nm, (k, d, al) in vals:
-            self._bind(s, nm, k, d, al)
+        s = self._bind_params(s, binds)
         self._active.append(h.qual)
         self._ret.append([])
         outs = self._block(fn.body, [s], None)
         rets = self._ret.pop()
         self._active.pop()
         return rets + [(x, None) for x in outs]
+
+    def _bind_params(self, s: PState, binds: list[tuple[str, ast.expr | None]]) -> PState:
+        """the state in which a helper walked in place starts: its parameters hold what the arguments are in the caller's state"""
+        s = s.copy()
+        vals = [(nm, (self.kind_of(arg, s), self.derived(arg, s), self._is_alias(arg, s)) if arg is not None else (("other", None), False, False),
+                 self._decision(arg, s)) for nm, arg in binds]
+        for nm, (k, d, al), dec in vals:
+            self._bind(s, nm, k, d, al)
+            self._note(s, nm, dec, {nm})
+        return s
+
+    # -- decisions that were given a name ------------------------------------------------------------------------------------------
+    def _is_decision(self, e: ast.expr | None, s: PState) -> bool:
+        """is e a truth value by construction"""
+        if isinstance(e, ast.Compare) or (isinstance(e, ast.UnaryOp) and isinstance(e.op, ast.Not)):
+            return True
+        if isinstance(e, ast.Constant):
+            return isinstance(e.value, bool)
+        if isinstance(e, ast.BoolOp):
+            return any(self._is_decision(v, s) for v in e.values)
+        if isinstance(e, ast.Name):
+            return e.id in s.cond
+        if isinstance(e, ast.Call):
+            return call_name(e) in _PREDICATES
+        return False
+
+    def _decision(self, e: ast.expr | None, s: PState) -> ast.expr | None:
+        """the decision e is in this state, in terms of what is not itself a named decision (None: e is no decision)"""
+        if e is None or not self._is_decision(e, s):
+            return None
+        used = {n.id for n in ast.walk(e) if isinstance(n, ast.Name) and isinstance(n.ctx, ast.Load) and n.id in s.cond}
+        if not used:
+            return e
+        key = (id(e), tuple(sorted((nm, s.cond[nm][0]) for nm in used)))
+        if key not in self._resolved:
+            holder = ast.Expr(value=copy.deepcopy(e))
+            for o, n in zip(ast.walk(e), ast.walk(holder.value)):
+                self._orig[id(n)] = self.origin(o)
+            self._resolved[key] = ast.fix_missing_locations(_Subst({nm: s.cond[nm][1] for nm in used}).visit(holder)).value
+        return self._resolved[key]
+
+    def _note(self, s: PState, name: str, dec: ast.expr | None, bound: set[str]) -> None:
+        """`name` was just bound (together with the names `bound`) to the decision dec"""
+        if dec is None or names_in(dec) & bound:     # ok = ok and <test> over an ok that stands for nothing known
+            return
+        text = norm(dec)
+        self._names.setdefault(text, names_in(dec))
+        s.cond[name] = (text, dec)
 
     def _loop(self, n: ast.For | ast.While, s: PState, outer: dict | None) -> list[PState]:
         seen: dict[tuple, PState] = {}
@@ -485,37 +623,52 @@ class Paths:
                 targets[0].elts) == len(value.elts) and not any(isinstance(e, ast.Starred) for e in [*value.elts, *targets[0].elts]):
             # a, b = x, y: element by element (all right-hand sides are evaluated first)
             vals = [(self.kind_of(v, s), self.derived(v, s), self._is_alias(v, s)) for v in value.elts]
+            decs = [self._decision(v, s) for v in value.elts]
             s = s.copy()
             for t_, (k, d, al) in zip(targets[0].elts, vals):
                 self._assign_target(s, t_, k, d, al)
+            bound = {n.id for t_ in targets[0].elts for n in ast.walk(t_) if isinstance(n, ast.Name)}
+            for t_, dec in zip(targets[0].elts, decs):
+                if isinstance(t_, ast.Name):
+                    self._note(s, t_.id, dec, bound)
             return [s]
         k = self.kind_of(value, s)
         d = self.derived(value, s)
         al = self._is_alias(value, s)
+        dec = self._decision(value, s)
         s = s.copy()
         for t_ in targets:
             self._assign_target(s, t_, k, d, al)
+        bound = {n.id for t_ in targets for n in ast.walk(t_) if isinstance(n, ast.Name)}
+        for t_ in targets:
+            if isinstance(t_, ast.Name):
+                self._note(s, t_.id, dec, bound)
         return [s]
 
     def _is_alias(self, e: ast.expr | None, s: PState) -> bool:
         """is e the subject itself"""
         if isinstance(e, ast.Call) and call_name(e).rsplit(".", 1)[-1] == "cast" and len(e.args) == 2:
             e = e.args[1]
-        return isinstance(e, ast.Name) and e.id in s.alias
+        return (isinstance(e, ast.Name) and e.id in s.alias) or (e is not None and self.source(e))
 
     def _assign_target(self, s: PState, t: ast.expr, k: tuple[str, int | None], d: bool, al: bool = False) -> None:
         if isinstance(t, ast.Name):
             self._bind(s, t.id, k, d, al)
         elif isinstance(t, (ast.Tuple, ast.List)):
-            for e in t.elts:
-                self._assign_target(s, e, ("other", None), d)
+            for i, e in enumerate(t.elts):     # prop, schemas = X.build(...): the first element is what that builder built
+                self._assign_target(s, e, k if i == 0 and k[0] == "deleg" and not isinstance(e, ast.Starred) else ("other", None), d)
         elif isinstance(t, ast.Starred):
             self._assign_target(s, t.value, ("other", None), d)
         else:   # attribute / subscript store: what was decided about that place no longer holds
+            if isinstance(t, ast.Attribute) and t.attr == "default" and isinstance(t.value, ast.Name) and not al \
+                    and s.kind.get(t.value.id, ("other", None))[0] == "schema":
+                s.kind[t.value.id] = ("other", None)     # the schema no longer carries the declared default
             txt = norm(t)
             for f in [f for f in s.facts if txt in f]:
                 del s.facts[f]
             s.tfacts = tuple(x for x in s.tfacts if txt not in x[0])
+            for nm in [nm for nm, (t2, _) in s.cond.items() if txt in t2]:
+                del s.cond[nm]
 
     def _bind(self, s: PState, name: str, k: tuple[str, int | None], d: bool, al: bool = False) -> None:
         s.kind[name] = k
@@ -524,6 +677,8 @@ class Paths:
         for f in [f for f in s.facts if name in self._names.get(f, ())]:
             del s.facts[f]
         s.tfacts = tuple(x for x in s.tfacts if name not in self._names.get(x[0], ()))
+        for nm in [nm for nm, (t2, _) in s.cond.items() if nm == name or name in self._names.get(t2, ())]:
+            del s.cond[nm]
 
     # -- decisions ------------------------------------------------------------------------------------------------------------
     def _branch(self, e: ast.expr, s: PState) -> tuple[list[PState], list[PState]]:
@@ -543,6 +698,18 @@ class Paths:
             return f, t
         if isinstance(e, ast.Constant):
             return ([s], []) if e.value else ([], [s])
+        if isinstance(e, ast.Name) and e.id in s.cond:     # a decision that was given a name
+            return self._branch(s.cond[e.id][1], s)
+        if isinstance(e, ast.Call) and call_name(e) in ("all", "any", "bool") and len(e.args) == 1 and not e.keywords:
+            a0 = e.args[0]
+            if call_name(e) == "bool":
+                return self._branch(a0, s)
+            if isinstance(a0, (ast.Tuple, ast.List)) and not any(isinstance(x, ast.Starred) for x in a0.elts):
+                # all((a, b)) decides what `a and b` decides (every operand is evaluated, which changes no decision)
+                if not a0.elts:
+                    return ([s], []) if call_name(e) == "all" else ([], [s])
+                op = ast.And() if call_name(e) == "all" else ast.Or()
+                return self._branch(ast.BoolOp(op=op, values=list(a0.elts)) if len(a0.elts) > 1 else a0.elts[0], s)
         walrus = [n for n in ast.walk(e) if isinstance(n, ast.NamedExpr)]
         if walrus:   # `(x := E) is None`  is  `x = E` followed by `x is None`
             cur = [s]
@@ -560,15 +727,19 @@ class Paths:
             fn, binds = self._expand(e, self._target(e))
             body = [x for x in fn.body if not (isinstance(x, ast.Expr) and isinstance(x.value, ast.Constant))]
             if len(body) == 1 and isinstance(body[0], ast.Return) and body[0].value is not None:
-                s = s.copy()
-                for nm, (k, d, al) in [(nm, (self.kind_of(arg, s), self.derived(arg, s), self._is_alias(arg, s)) if arg is not None
-                                        else (("other", None), False, False)) for nm, arg in binds]:
-                    self._bind(s, nm, k, d, al)
+                s = self._bind_params(s, binds)
                 self._active.append(self._target(e).qual)
                 try:
                     return self._branch(body[0].value, s)
                 finally:
                     self._active.pop()
+            # any other helper: walked in place, each of its returns decides with what it returns
+            t_all, f_all = [], []
+            for s2, rv in self._inline(e, s):
+                t, f = self._branch(rv if rv is not None else ast.Constant(value=None), s2)
+                t_all += t
+                f_all += f
+            return t_all, f_all
         pos, flip = _positive(e)
         text = norm(pos)
         self._names.setdefault(text, names_in(pos))
@@ -660,6 +831,21 @@ class Paths:
         return s
 
 
+# R13.7: builder calls that deliberately do not hand the declared default on.  (root function, builder, parameter, argument) -> reason
+HANDOVER_EXCEPTIONS = {
+    ("property_from_data", "FileProperty.build", "default", "None"): "a string of format binary takes no default: None is handed on, a declared default is ignored",
+    ("EnumProperty.build", "NoneProperty.build", "default", "'None'"): "an enum whose only value is null is the constant None, whatever default is declared",
+    ("LiteralEnumProperty.build", "NoneProperty.build", "default", "'None'"): "an enum whose only value is null is the constant None, whatever default is declared",
+}
+
+
+def _no_default_declared(s: PState, params: list[str]) -> bool:
+    """on this path the declared default was found to be absent (None)"""
+    if "default" in params and s.kind.get("default", ("other", None))[0] == "none":
+        return True
+    return s.facts.get("data.default is None") is True or s.facts.get("data.default") is False
+
+
 def _value_param(f: Any) -> str | None:
     ps = [p.arg for p in f.params if p.arg not in ("self", "cls")]
     return ps[0] if ps else None
@@ -708,11 +894,27 @@ def run(rep: Report, ctx: Any) -> str:
                       "with a wrapper schema the default is the referenced class's tested conversion of parent.default; "
                       "_merge_common_attributes converts the override with the merged class on every path, unions try members")
     rep.rule("R13.5", "to_string returns default.python_code on every path on which a default exists")
+    rep.rule("R13.7", "the declared default reaches the builder: wherever property_from_data or a builder hands the property on to (another) "
+                      "builder and returns what that builds, the declared default is handed on with it - the builder's `default` argument "
+                      "is the declared default itself, its `data` argument the schema itself or a copy that keeps its default")
     rep.rule("R13.6", "allOf: when two members declare the same property the later declaration's default wins: the incoming property "
                       "reaches every _merge_common_attributes call as the last override (roles followed through the calls of the merge "
                       "module), overrides are applied in argument order and the override's converted default is preferred")
 
     props = ix.property_classes()
+    by_name = {c.name: c for c in props}
+    pfd = ix.func("properties.property_from_data")
+
+    def callee_in(owner: Any) -> Callable[[ast.Call], Any]:
+        def callee_of(c_: ast.Call) -> Any:
+            head, _, last = call_name(c_).rpartition(".")
+            if last == "build":
+                k = owner if head in ("cls", "self") else by_name.get(head.rsplit(".", 1)[-1])
+                return ix.find_method(k, "build") if k is not None else None
+            return pfd if last == pfd.name else None
+        return callee_of
+
+    handovers: list[tuple[str, Any, Paths]] = []     # (root, function, its paths) for R13.7
     # ---- R13.1 ---------------------------------------------------------------------------------------------------------
     # asked of the builder with the private helpers of its region walked in place (so the conversion, the test, the registration
     # and the construction may each sit in `build` or in a helper it hands the default - or the schema declaring it - to)
@@ -730,7 +932,9 @@ def run(rep: Report, ctx: Any) -> str:
             continue
         n_b += 1
         key = f"{c.name}.build"
-        pp = Paths(b.node, tainted={"default"} & set(params), source=is_source, helpers=helpers)
+        pp = Paths(b.node, tainted={"default"} & set(params), source=is_source, helpers=helpers, subject="default" if "default" in params else None,
+                   schema="data" if "data" in params else None, callee_of=callee_in(c))
+        handovers.append((key, b, pp))
         conv = [n for f in reg_fns for n in ast.walk(f.node) if isinstance(n, ast.Call) and call_name(n).endswith("convert_value")]
         rep.check(bool(conv), "R13.1", key + "::converts", "the builder does not pass the default through convert_value", where(b, b.node),
                   lhs=[norm(x)[:50] for x in conv], rhs="convert_value(default)")
@@ -748,6 +952,14 @@ def run(rep: Report, ctx: Any) -> str:
         rep.check(tested and not lost and not untested, "R13.1", key + "::error-returned",
                   "a PropertyError from convert_value is not returned by the builder", where(b, b.node), lhs=lost + untested,
                   rhs="every path: isinstance(<converted>, PropertyError) decided; yes -> it is returned")
+        # no path returns a property past the conversion: it returns an error, what another builder built (R13.7: with the default handed
+        # on), or the converted default was tested on it - unless no default is declared on that path
+        past = sorted({f"`{norm(n)[7:60] if n is not None else 'None'}` when {sorted(f'{t}={v}' for t, v in s.facts.items() if 'default' in t) or 'always'}"
+                       for n, s in pp.returns() if pp.returned(n, s)[0] not in ("error", "deleg") and not (s.oks & sites)
+                       and not _no_default_declared(s, params)})
+        rep.check(not past, "R13.1", key + "::every-path-converts", "the builder returns a property on a path on which the declared default was "
+                  "neither converted and tested nor handed on to another builder (the default is ignored there, a bad one is not reported)",
+                  where(b, b.node), lhs=past, rhs="every returning path: an error | what another builder returned | the default's conversion was tested")
         # registration (classes_by_name) only on paths where the result was found not to be an error
         regs: dict[int, tuple[ast.stmt, list[bool]]] = {}
         for n, s in pp.stmts():
@@ -770,6 +982,32 @@ def run(rep: Report, ctx: Any) -> str:
                   "the property stores something other than the converted default", where(b, b.node),
                   lhs=bad or [norm(v)[:40] for v, _ in final], rhs="the tested result of convert_value(default)")
     rep.floor("builders_with_default", n_b, 7)
+
+    # ---- R13.7 ---------------------------------------------------------------------------------------------------------
+    # asked of property_from_data (with its private helpers walked in place) and of every builder above: the builder calls whose
+    # result is what the function returns on some path (directly, through a local, as the first element of the returned pair)
+    p_params = [p.arg for p in pfd.params]
+    handovers.append((pfd.name, pfd, Paths(
+        pfd.node, source=lambda n: isinstance(n, ast.Attribute) and norm(n) == "data.default" and "data" in p_params, helpers=_helpers_of(ix, pfd),
+        schema="data" if "data" in p_params else None, callee_of=callee_in(None))))
+    n_h = 0
+    for root, f, pp in handovers:
+        returned = {k for n, s in pp.returns() for tag, k in [pp.returned(n, s)] if tag == "deleg"}
+        for k in sorted(returned, key=lambda k_: getattr(pp.delegs[k_][0], "lineno", 0)):
+            call, verdicts = pp.delegs[k]
+            n_h += 1
+            h = pp.callee_of(call)      # the key names the builder (a class / function of the repository), never a local
+            target = (f"{h.cls.name}.{h.name}" if h.cls is not None else h.name) if h is not None else "<computed>.build"
+            bad = sorted({(param, arg) for ok_, param, arg in verdicts if not ok_})
+            frozen = [HANDOVER_EXCEPTIONS.get((root, target, param, arg)) for param, arg in bad]
+            if bad and all(frozen):
+                rep.ok("R13.7", f"{root}::hands-on-default[{target}]", "confirmed exception", "; ".join(sorted(set(frozen))))
+                continue
+            rep.check(not bad, "R13.7", f"{root}::hands-on-default[{target}]",
+                      "the property is handed on to a builder without its declared default: the default is ignored (omitting the argument "
+                      "no longer encodes it) and a bad one is not reported", where(f, call), lhs=[f"{param}={arg}" for param, arg in bad] or
+                      sorted({f"{param}={arg}" for _, param, arg in verdicts}), rhs="default=<the declared default> | data=<the schema itself / a copy that keeps its default>")
+    rep.floor("builder_handovers", n_h, 9)
 
     # ---- R13.2 -------------------------------------------------------------------------------------------------------------
     n_c = 0
@@ -852,6 +1090,10 @@ def run(rep: Report, ctx: Any) -> str:
         last_[w] = (pc, fq)
     for w, (pc, fq) in sorted(last_.items()):
         pasted = {l for l in pc.labels if l in (RAW, UNKNOWN, RAW_NONSTR) or is_esc(l)}
+        if pasted and _literal_on_every_path(ix, w, fq):
+            # the label analysis joins what it knows where branches meet and does not follow a decision through the local that names
+            # it; the path walk does: on every path to this construction the text was found equal to a string literal of the source
+            pasted = set()
         rep.check(not pasted, "R13.3", fq.replace(PKG + ".", "") + "::Value.python_code", f"document text pasted into code ({sorted(pasted)})",
                   w, lhs=sorted(pc.labels), rhs="built, not pasted")
     rep.floor("value_constructions", len(last_), 8)
@@ -1119,6 +1361,85 @@ def _outside_calls(ix: Any, entry: Any, mod: Any) -> list[tuple[ast.Call, Any]]:
                 if id(n) not in best or size < best[id(n)][2]:
                     best[id(n)] = (n, f, size)
     return [(c, f) for c, f, _ in best.values()]
+
+
+# ---- R13.3: document text that is a literal of the source on every path ------------------------------------------------------------
+def _is_str_literal(e: ast.AST) -> bool:
+    return isinstance(e, ast.Constant) and isinstance(e.value, str)
+
+
+def _known_literal(e: ast.expr, s: PState) -> bool:
+    """on this path e is a string literal of the source: written as one, or a name that was found equal to one / to be one of a
+    literal collection of them (`e == "x"`, `e in ("x", "y")` answered yes) and has not been re-bound since"""
+    if _is_str_literal(e):
+        return True
+    if not isinstance(e, ast.Name):
+        return False
+    for text, truth in s.facts.items():
+        if not truth or e.id not in text:
+            continue
+        try:
+            t = ast.parse(text, mode="eval").body
+        except SyntaxError:
+            continue
+        if not (isinstance(t, ast.Compare) and len(t.ops) == 1):
+            continue
+        l, r = t.left, t.comparators[0]
+        if isinstance(t.ops[0], ast.Eq) and any(isinstance(a, ast.Name) and a.id == e.id and _is_str_literal(b) for a, b in ((l, r), (r, l))):
+            return True
+        if isinstance(t.ops[0], ast.In) and isinstance(l, ast.Name) and l.id == e.id and isinstance(r, (ast.Tuple, ast.List, ast.Set)) \
+                and r.elts and all(_is_str_literal(x) for x in r.elts):
+            return True
+    return False
+
+
+def _literal_on_every_path(ix: Any, w: str, fq: str) -> bool:
+    """is the python_code of the Value(...) constructed at `w` in function fq a string literal of the source on every path that
+    reaches the construction"""
+    f = next((g for g in ix.all_functions if g.qual == fq), None)
+    if f is None or isinstance(f.node, ast.AsyncFunctionDef):
+        return False
+    line = w.rpartition(":")[2]
+    calls = [c for c in ast.walk(f.node) if isinstance(c, ast.Call) and str(getattr(c, "lineno", "")) == line
+             and call_name(c).rsplit(".", 1)[-1] == "Value"]
+    if not calls:
+        return False
+    pp = Paths(f.node, helpers=_helpers_of(ix, f))
+    for c in calls:
+        code = next((kw.value for kw in c.keywords if kw.arg == "python_code"), c.args[0] if c.args else None)
+        if code is None:
+            return False
+        reached = False
+        for n, s in list(pp.records):
+            if n is None:
+                continue
+            chain = _chain_to(n, c)
+            if chain is None:
+                continue
+            # inside conditional expressions: the state in which the arm that holds the construction is evaluated
+            states = [s]
+            for parent, child in zip(chain, chain[1:]):
+                if isinstance(parent, ast.IfExp) and child is not parent.test:
+                    split = [pp._branch(parent.test, x) for x in states]
+                    states = [y for t, f_ in split for y in (t if child is parent.body else f_)]
+            for x in states:
+                reached = True
+                if not _known_literal(code, x):
+                    return False
+        if not reached:
+            return False
+    return True
+
+
+def _chain_to(root: ast.AST, target: ast.AST) -> list[ast.AST] | None:
+    """the nodes from root down to target (None: target is not inside root)"""
+    if root is target:
+        return [root]
+    for ch in ast.iter_child_nodes(root):
+        sub = _chain_to(ch, target)
+        if sub is not None:
+            return [root, *sub]
+    return None
 
 
 def _isinstance_of(text: str) -> tuple[str, list[str]] | None:
